@@ -678,6 +678,8 @@ func checkC07(w *World, r *Report) {
 	r.Rule("R07.1", 1, "a checked validateLifetimes dominates the allocation of the provider")
 	r.Rule("R07.2", 1, "the only lifetime that exempts a dependent from the check is Scoped; no attribute of a dependency other than nil/group/lookup-miss exempts it (optional dependencies are resolved like any other)")
 	r.Rule("R07.3", 3, "every registration is checked: the lifetime table is complete before the first check and is not written afterwards; every element of every view is passed to the check; the check's loop over dependencies is left only by `continue` or by returning the conflict")
+	r.Rule("R07.8", 3, "lifetime validation sees the lifetime the registration asked for: Descriptor.Lifetime is only ever the Lifetime parameter or a copy of the base descriptor's")
+	r.Try(func() { ruleLifetimeSource(w, r, "R07.8") })
 	r.Rule("R07.4", 2, "group dependencies are checked against every member of the group (group-keyed lookup in the groups view); plain and keyed dependencies against the table entry for exactly (Type, Key)")
 	r.Rule("R07.5", 2, "the conflict is raised exactly when the dependency's lifetime is Scoped, as a LifetimeConflictError")
 	r.Rule("R07.6", 3, "every descriptor created for a multi-output registration copies Lifetime, Constructor and Dependencies from the base descriptor")
@@ -1050,6 +1052,8 @@ func checkC08(w *World, r *Report) {
 	r.Try(func() { ruleGraphSeesAllDependencies(w, r, "R08.6") })
 	r.Rule("R08.7", 1, "a descriptor's dependency list is the analyzer's list, unfiltered: what is injected is what is checked for presence")
 	r.Try(func() { ruleDependenciesUnfiltered(w, r, "R08.7") })
+	r.Rule("R08.11", 1, "a constructor that succeeded is not reported as failed: its error result is tested for nil on the reflect.Value before it is converted to error")
+	r.Try(func() { ruleErrorResultNilCheckedOnValue(w, r, "R08.11") })
 	r.Rule("R08.10", 1, "a resolvable set is not rejected as circular: the degree recomputation counts every edge (a dependency listed twice is two edges on both sides of Kahn's counter)")
 	r.Try(func() { ruleDegreeCountsEveryEdge(w, r, "R08.10") })
 	r.Rule("R08.9", 3, "a resolvable set is not rejected for a cycle it does not contain: group placeholders are linked only to the members of their own element type and group name")
